@@ -6,9 +6,11 @@ package main
 import (
 	"fmt"
 	"io"
+	"sort"
 	"strings"
 	"time"
 
+	"github.com/gofiber/fiber/v3/binder"
 	"github.com/gofiber/fiber/v3/client"
 	"github.com/gofiber/fiber/v3/log"
 	"github.com/valyala/fasthttp"
@@ -128,6 +130,35 @@ func emitRT(w *gen.Writer, id, source string, split, auto bool, v *T) {
 	w.Count("rt-" + source)
 }
 
+// mpInfo is a parameter of the model, recomputed on every run and replay: what fasthttp's multipart
+// reader (mime/multipart underneath; neither is the code under test) finds in the body, read from a
+// second, untouched request. "-" = the form binder does not take its multipart branch;
+// "err" = Request.MultipartForm fails; otherwise "ok:" + sorted `hex(name)=hexlist(values)` entries
+// and `f:hex(name)` for file parts, joined by '/'.
+func mpInfo(source, ctype, payload string) string {
+	if source != "body" || binder.FilterFlags(ctype) != binder.MIMEMultipartForm {
+		return "-"
+	}
+	var req fasthttp.Request
+	req.Header.SetMethod("POST")
+	req.Header.SetContentType(ctype)
+	req.SetBody([]byte(payload))
+	f, err := req.MultipartForm()
+	if err != nil {
+		return "err"
+	}
+	defer req.RemoveMultipartFormFiles()
+	var parts []string
+	for k, vs := range f.Value {
+		parts = append(parts, gen.Hex(k)+"="+gen.HexList(vs))
+	}
+	for k := range f.File {
+		parts = append(parts, "f:"+gen.Hex(k))
+	}
+	sort.Strings(parts)
+	return "ok:" + strings.Join(parts, "/")
+}
+
 func emitRaw(w *gen.Writer, id, source string, split, auto bool, target, ctype, payload string, hdrs []string) {
 	obs := rawBind(source, split, auto, target, ctype, payload, hdrs)
 	sch := "query"
@@ -137,7 +168,8 @@ func emitRaw(w *gen.Writer, id, source string, split, auto bool, target, ctype, 
 	case "body":
 		sch = "form"
 	}
-	w.Case(id, "raw", source, gen.B(split), gen.B(auto), target, schemaFor(sch), gen.Hex(ctype), gen.Hex(payload), gen.HexList(hdrs), obs)
+	w.Case(id, "raw", source, gen.B(split), gen.B(auto), target, schemaFor(sch), gen.Hex(ctype), gen.Hex(payload), gen.HexList(hdrs),
+		mpInfo(source, ctype, payload), obs)
 	w.Count("raw-" + source)
 }
 
@@ -225,4 +257,8 @@ func noCRLF(v *T) {
 	for i := range v.TS {
 		v.TS[i] = f(v.TS[i])
 	}
+	for i := range v.NT {
+		v.NT[i] = f(v.NT[i])
+	}
+	v.N = f(v.N)
 }
